@@ -4,6 +4,7 @@ package destination
 
 import (
 	"bytes"
+	"strings"
 	"time"
 )
 
@@ -45,34 +46,49 @@ func VerifC07Outage() {
 	d.Run()
 	verifSettle()
 	var lines [][]byte
+	maxl := verifParamInt("maxlines", 2) // most lines per phase (0..maxl while connected / during the outage)
 	verifHandOff(d, &lines, verifChoice("n-before", 2))
 	if !startUp {
 		verifEndpointUp(true)
 		verifReconnect(d)
 	}
-	// the endpoint may stop reading while still connected: the connection writer then blocks inside a
-	// socket write, and the outage surfaces as a write error for the very line it holds
-	stalled := verifBool("endpoint-stops-reading-before-outage")
-	if stalled {
-		for k := 0; k < verifNumConns(); k++ {
-			verifEndpointStall(k, true)
+	// param "outages": the whole outage / recovery cycle may repeat; param "rotate": keepSafe's expiry ticker may
+	// fire (once) while connected, between the lines and the outage
+	outages := verifParamInt("outages", 1)
+	for o := 0; o < outages; o++ {
+		// the endpoint may stop reading while still connected: the connection writer then blocks inside a
+		// socket write, and the outage surfaces as a write error for the very line it holds
+		stalled := verifBool("endpoint-stops-reading-before-outage")
+		if stalled {
+			for k := 0; k < verifNumConns(); k++ {
+				verifEndpointStall(k, true)
+			}
 		}
+		verifHandOff(d, &lines, verifChoice("n-connected", 1+maxl))
+		if verifParam("rotate") == "1" && verifBool("keepsafe-expiry-tick") {
+			for i := 0; i < verifNumTickers(); i++ {
+				if strings.Contains(verifTickerName(i), "keepsafe.go") {
+					verifTick(i)
+				}
+			}
+			verifSettle()
+			verifHandOff(d, &lines, verifChoice("n-after-rotation", 2))
+		}
+		if !stalled && verifBool("flush-before-outage") {
+			verifFlushConns()
+		}
+		// outage: the peer closes the connection (checkEOF sees EOF), the endpoint refuses new connections
+		verifEndpointUp(false)
+		for k := 0; k < verifNumConns(); k++ {
+			verifEndpointClose(k)
+		}
+		verifSettle()
+		verifHandOff(d, &lines, verifChoice("n-during-outage", 1+maxl))
+		// recovery
+		verifEndpointUp(true)
+		verifReconnect(d)
+		verifHandOff(d, &lines, verifChoice("n-after", 2))
 	}
-	verifHandOff(d, &lines, verifChoice("n-connected", 3))
-	if !stalled && verifBool("flush-before-outage") {
-		verifFlushConns()
-	}
-	// outage: the peer closes the connection (checkEOF sees EOF), the endpoint refuses new connections
-	verifEndpointUp(false)
-	for k := 0; k < verifNumConns(); k++ {
-		verifEndpointClose(k)
-	}
-	verifSettle()
-	verifHandOff(d, &lines, verifChoice("n-during-outage", 3))
-	// recovery
-	verifEndpointUp(true)
-	verifReconnect(d)
-	verifHandOff(d, &lines, verifChoice("n-after", 2))
 	verifReconnect(d)
 	verifFlushConns()
 	verifSettle()
